@@ -24,7 +24,7 @@ ASSUMPTIONS = [
 ]
 BUDGET = {
     "quick": {"shards": 16, "examples": 30, "wall": 110},
-    "thorough": {"shards": 16, "examples": 500, "wall": 1200},
+    "thorough": {"shards": 16, "examples": 5000, "wall": 900},
 }
 
 
